@@ -65,7 +65,7 @@ def run(ctx):
             for enc in encs:
                 add(enc, n, 1 % n, s)
     # production orders and awkward orders, structured s
-    orders = sigcommon.production_orders(ecdsa) + [("extra", n) for n in sigcommon.EXTRA_ORDERS]
+    orders = sigcommon.production_orders(ecdsa) + [("extra", n) for n in sigcommon.EXTRA_ORDERS + ([] if quick else sigcommon.HUGE_ORDERS[:1])]
     for name, n in orders:
         svals = s_values(n, rnd, 10 if quick else 200)
         if quick:
